@@ -40,8 +40,9 @@ type Document struct {
 	stylesRelID string
 	// styles.xml 是否由本库根据样式管理器生成（而非来自已打开的文档或模板）
 	stylesGenerated bool
-	// 加载已有 styles.xml 后样式管理器中的样式ID（用于识别之后新增的样式）
-	stylesBaseline map[string]bool
+	// 加载已有 styles.xml 后样式管理器中各样式的定义快照（样式ID -> 序列化结果），
+	// 用于识别之后新增或被修改的样式
+	stylesBaseline map[string]string
 }
 
 // Body 表示文档主体
@@ -644,9 +645,9 @@ func openFromZipReader(zipReader *zip.Reader, filename string) (*Document, error
 		// 如果样式解析失败，重新初始化为默认样式
 		doc.styleManager = style.NewStyleManager()
 	}
-	doc.stylesBaseline = make(map[string]bool)
+	doc.stylesBaseline = make(map[string]string)
 	for _, st := range doc.styleManager.GetAllStyles() {
-		doc.stylesBaseline[st.StyleID] = true
+		doc.stylesBaseline[st.StyleID] = styleSnapshot(st)
 	}
 
 	// 解析文档关系（包括图片等资源的关系）
@@ -3258,8 +3259,36 @@ var (
 	styleRefElemPattern = regexp.MustCompile(`<w:(?:pStyle|rStyle|tblStyle) w:val="([^"]*)"`)
 )
 
-// appendMissingStyles 在保留已有 styles.xml 原文的前提下，补充其中缺失的样式定义：
-// 加载之后通过样式管理器新增的样式，以及正文引用到但 styles.xml 中未定义的样式。
+// styleSnapshot 返回样式定义的序列化快照，用于判断样式在加载之后是否被修改
+func styleSnapshot(st *style.Style) string {
+	data, err := xml.Marshal(st)
+	if err != nil {
+		return ""
+	}
+	return string(data)
+}
+
+// replaceStyleDefinition 用 def 替换 styles.xml 原文中 styleId 为 id 的样式定义；找不到时返回 false
+func replaceStyleDefinition(existing []byte, id string, def []byte) ([]byte, bool) {
+	re, err := regexp.Compile(`(?s)<(?:[A-Za-z_][\w.\-]*:)?style\b[^>]*?[:\s]styleId\s*=\s*["']` + regexp.QuoteMeta(id) +
+		`["'][^>]*?(?:/>|>.*?</(?:[A-Za-z_][\w.\-]*:)?style\s*>)`)
+	if err != nil {
+		return existing, false
+	}
+	loc := re.FindIndex(existing)
+	if loc == nil {
+		return existing, false
+	}
+	merged := make([]byte, 0, len(existing)-(loc[1]-loc[0])+len(def))
+	merged = append(merged, existing[:loc[0]]...)
+	merged = append(merged, def...)
+	merged = append(merged, existing[loc[1]:]...)
+	return merged, true
+}
+
+// appendMissingStyles 在保留已有 styles.xml 原文的前提下，写入样式管理器中的变化：
+// 加载之后通过样式管理器新增或修改的样式（已有定义则替换，否则追加），
+// 以及正文引用到但 styles.xml 中未定义的样式。
 func (d *Document) appendMissingStyles(existing []byte) []byte {
 	defined := make(map[string]bool)
 	for _, m := range styleIDAttrPattern.FindAllSubmatch(existing, -1) {
@@ -3272,7 +3301,9 @@ func (d *Document) appendMissingStyles(existing []byte) []byte {
 
 	var missing []byte
 	for _, st := range d.styleManager.GetAllStyles() {
-		if defined[st.StyleID] || (d.stylesBaseline[st.StyleID] && !referenced[st.StyleID]) {
+		snapshot, loaded := d.stylesBaseline[st.StyleID]
+		unchanged := loaded && snapshot == styleSnapshot(st)
+		if unchanged && (defined[st.StyleID] || !referenced[st.StyleID]) {
 			continue
 		}
 		data, err := xml.MarshalIndent(st, "  ", "  ")
@@ -3282,6 +3313,13 @@ func (d *Document) appendMissingStyles(existing []byte) []byte {
 		// 已有文件可能未使用 w 前缀声明命名空间，这里在元素上显式声明
 		data = bytes.Replace(data, []byte("<w:style "),
 			[]byte(`<w:style xmlns:w="http://schemas.openxmlformats.org/wordprocessingml/2006/main" `), 1)
+		if defined[st.StyleID] {
+			// 加载之后新增（同ID）或修改的样式：替换原有定义
+			if replaced, ok := replaceStyleDefinition(existing, st.StyleID, bytes.TrimLeft(data, " ")); ok {
+				existing = replaced
+			}
+			continue
+		}
 		missing = append(missing, '\n')
 		missing = append(missing, data...)
 	}
